@@ -8,6 +8,32 @@ TRUST = ("Trusted: TLC 2026.09.04 (tla2tools 1.8.0) and the CommunityModules Jso
          "concretisation of abstract vectors into Go values; the supervised worker (harness/sup). ")
 
 CLAIMED = {
+    "C02": dict(
+        text="spec/SchemaSem.tla transcribes Unserialize/Validate/Serialize for int, float, string, bool, pattern, int/string enums "
+             "(typed and untyped), list, map and any (with units) rule by rule; spec/SchemaDecl.tla states the property declaratively "
+             "(Denotes = the fixed lenient conversions, Satisfies = every declared constraint); TLC checks Exact (operational <=> "
+             "declarative and the result is the denoted value) and SamePaths (Validate/Serialize enforce the same constraints on native "
+             "values) on every state of SchemaMC: every combination of absent/present bounds x {min-1,min,max,max+1}, sizes 0-3 x size "
+             "bounds, NaN/Inf, int64/2^53/2^31/2^32 edges through order embeddings, every Go representation; each state is replayed into "
+             "the real schema built through the public constructors under every embedding; deeper random schemas/values are logged and "
+             "validated line by line by SchemaTrace.tla.",
+        note=TRUST + "The string-token table and the CBOR/JSON/YAML transform table are checked at start-up against strconv/regexp "
+             "and the real codecs (a mismatch is exit 2); numbers go through order-preserving embeddings (TLC has 32-bit ints, no floats).",
+        technique="TLA+ transcription (operational) checked against a declarative TLA+ statement by TLC; every state replayed into the "
+                  "real code; recorded calls validated by a trace spec",
+        design="5/C02", engine="tlc-exhaustive"),
+    "C04": dict(
+        text="The operators of spec/SchemaSem.tla are total on Raw U Junk at every schema position (a missing CASE arm is a TLC error); "
+             "TLC enumerates every schema kind x every value class (nil, wrong types, non-string and mixed map keys, typed maps and "
+             "slices, byte strings, tags, big numbers, extreme integers, NaN/Inf, named scalar types, nil pointers, foreign structs) at "
+             "every position of schemas of depth <=2/3; every vector runs Unserialize, data-mode ValidateCompatibility, Validate and "
+             "Serialize in the supervised worker: verdict = returned vs panic / fatal stack overflow / no return; a deep-nesting sweep "
+             "(to 12000/20000 levels, directly and through encoding/json) and seeded hostile random values complete it.",
+        note=TRUST + "Only returned-vs-panic/overflow/hang is judged here; accept/reject disagreements belong to C02/C03. Nesting beyond "
+             "what the decoders can produce is not held against the SDK.",
+        technique="TLA+ totality model enumerated by TLC; vectors executed in a supervised child process that attributes panics, fatal "
+                  "errors and hangs to one case",
+        design="5/C04", engine="tlc-exhaustive"),
     "C05": dict(
         text="TLC explores every interleaving of the implementation-shaped model spec/ATP.tla (callers, read loop, write loops, Close, "
              "server run loop, closure handler, step and signal goroutines, both wires with capacity and fragmentation) for 2-3 runs "
@@ -30,6 +56,34 @@ CLAIMED = {
         technique="TLA+ model checked exhaustively by TLC; counterexample and behaviour replay through scheduler gates; delay-bounded "
                   "schedule exploration with trace validation",
         design="5/C06", engine="tlc-exhaustive"),
+    "C07": dict(
+        text="spec/ATPServerEnv.tla puts the server of ATP.tla (run loop, closure handler, step and signal goroutines, bounded closable "
+             "workDone channel, encoder mutex) against an arbitrary client: any sequence (<=3/4) of valid and invalid messages of a "
+             "grammar, a message cut short, end of input at any moment, every step behaviour; TLC checks EnvNoCrash, EnvOneTerminal, "
+             "EnvNoStuck on every interleaving and EnvAnswers/EnvReturns under fairness (thorough). Sampled behaviours are projected to "
+             "client scripts with concrete CBOR variants and played against the real RunATPServer in a supervised child process; "
+             "seeded grammar scripts beyond the model (3 runs, 8 messages, duplicate run IDs) and EVERY byte offset of base scripts as "
+             "truncation point are run; oracles: process alive, RunATPServer returns, terminal messages per run = accepted work-starts; "
+             "every session without duplicate run IDs is validated by ATPTrace.tla.",
+        note=TRUST + "Hook placement in atp/ (build tag verif); the client keeps reading until the output closes; 60 s send timeout and "
+             "context cancellation not driven; duplicate run IDs only with the counting oracle.",
+        technique="TLA+ model of the server against a nondeterministic client environment checked by TLC; projected scripts and "
+                  "byte-offset truncations run against the real server; trace validation",
+        design="5/C07", engine="tlc-exhaustive"),
+    "C08": dict(
+        text="spec/ATPClientEnv.tla puts the client of ATP.tla against a server stream that answers in any order or never, interleaves "
+             "unsolicited messages, turns to garbage, stops inside a message, ends, or whose input side fails; TLC checks FailNotHang, "
+             "NoFabrication, FReturnsOnce, NoNilWake, FlagHonest on every interleaving (2 runs) and liveness under fairness (thorough). "
+             "Sampled behaviours are projected to scripts and run against the real client; for base sessions (v3 serial, v3 concurrent "
+             "with unsolicited traffic, v1) every byte offset x {EOF, I/O error, byte inversion}, faults inside the hello, unsupported "
+             "version, unusable schema and write-side failure at every position are enumerated; oracles: no panic, every call returns "
+             "once (structural stuck detection), success only for a run whose work-done is intact by an independent per-message decode "
+             "of the same faulted bytes; scripted sessions are validated by ATPTrace.tla.",
+        note=TRUST + "Hook placement in atp/ (build tag verif); corruption inside a payload string is undetectable without checksums and is "
+             "judged by the independent decode; Close's 5 s bounded wait not driven.",
+        technique="TLA+ model of the client against a breaking-stream environment checked by TLC; fault enumeration at every byte offset "
+                  "of recorded streams against the real client; trace validation",
+        design="5/C08", engine="tlc-exhaustive"),
     "C15": dict(
         text="spec/Compat.tla states the property as a partial specification over an abstract schema AST: MustReject (different base "
              "kind, incompatible element/key/value/property types, undeclared or missing-required property, differing enforced IDs, "
